@@ -205,7 +205,7 @@ def run(ctx):
     ctx.assume('StepBy over a Range of length L with step s yields ceil(L/s) items (std contract)')
     return {
         'level': 'other',
-        'explanation': 'Only the word-count clause of the statement is decided: loop-summarised effect counting shows that the ANS coder appends at most one word per encoded symbol and at most State::BITS/Word::BITS '
+        'explanation': 'Decided: the word-count clause, the width-conservation condition of the bit bound (every store to `range` scales the previous width), and - thorough tier - the preset clause as a const assertion the compiler evaluates (S - W - P >= 8 for every default coder/model pair). Word count: loop-summarised effect counting shows that the ANS coder appends at most one word per encoded symbol and at most State::BITS/Word::BITS '
                        'words on export, and that for the range encoder (words written + held-back words) grows by the number of window shifts (0 or 1) per symbol while sealing adds held-back + at most 2 words. '
                        'The analytic bound on the number of bits (information content + rounding term, the 0.006 bit/symbol figure) is value-level and not decided.',
         'trusted_base': ['rustc type checker + MIR construction', 'cfacts extractor', 'iterator length algebra (vlib/effects.py)', 'std iterator contracts'],
